@@ -286,6 +286,10 @@ def run(ctx):
         for r in res: ctx.add_result(r)
         ctx.functions.update(funcs)
     structs.adz_apply_obligations(ctx, 'C01')
+    # freshness premise of L-SOUND, under C01's own names: a witness constant / world handed out by the branch is new to it
+    from checks import c06
+    c06.append_obligations(ctx, 'C01.fresh', only=('fresh-constant', 'fresh-world'))
+    ctx.replayers['C01.fresh.'] = c06.replay_history
     bounded_soundness(ctx)
     from checks import c04
     ctx.replayers['C01.rule.'] = lambda r: c04.replay(dict(obligation=r.name, counterexample=r.cex, meta=r.meta))
